@@ -18,18 +18,27 @@ query that fails input processing contributes exactly its own error response and
 (`failing_query_contributes_its_error`); both persistence policies (`run_multiset`, discard ⇒ exactly the
 input-stage error responses).
 
-Where the code deviates from the property (findings, each with a counterexample on the faithful model):
+Repaired (the former `_counterexample` theorems are now the positive statements; the witnesses stay in the
+harness corpus under their oracle keys): a query that is not a JSON object is answered with an error response
+that echoes it (`non_object_query_echoed`; it used to be answered with the placeholder request
+`{"error":"unable to display query"}`, key `pipeline/request-not-echoed`, and `[]` with no response at all,
+key `pipeline/query-unanswered`); every query is answered (`every_query_answered`); every response carries the
+request it answers (`response_carries_request`).
+
+Where the code still deviates from the property (findings, each with a counterexample on the faithful model):
 * `pipeline/sibling-responses-lost` — `json_array_op` stops at the first failing element: when grid search
   has expanded a query into n and a later plugin fails on one of them, the query yields ONE error response and
-  its n−1 siblings are lost (`one_response_per_expanded_query_partial`,
-  `sibling_responses_lost_counterexample`);
-* `pipeline/request-not-echoed` — a non-object query ends in `package_invariant_error(None, …)`: `request` is
-  the placeholder `{"error":"unable to display query"}` (`response_carries_request_partial`,
-  `request_not_echoed_counterexample`); an empty-array query under any plugin gets no response at all
-  (`empty_array_query_unanswered_counterexample`, key `pipeline/query-unanswered`);
+  its n−1 siblings are lost (`one_response_per_expanded_query_partial`, `answer_is_itemwise_partial`,
+  `sibling_responses_lost_counterexample`); repairing it needs `json_array_op` to return several results
+  (an API change);
 * the prediction cache is the one piece of shared mutable state: transparent iff no two inputs with different
   predictions share a rounded key (`cache_transparent`, `cache_collision_counterexample`; the collision on the
   real record is C08's finding `predict/cache-rounding-collision`).
+
+The theorems about answering and echoing take the hypothesis that every plugin maps an object to an object or
+a non-empty array of objects (`ObjOp`): proved for grid search, inject and the load balancer
+(`builtin_plugins_keep_objects`); for a recorded table plugin it is a property of the recorded data (true of
+the r-tree matchers and the haversine load balancer, which only insert fields).
 
 Not a finding (configuration, outside the quantifier `parallelism 1..#cores`): parallelism 0 makes
 `apply_load_balancing_policy` fail the whole batch (`parallelism_zero_fails_batch`).
@@ -206,38 +215,108 @@ theorem error_response_shape (plugins : List Plugin) (q e : Json) (h : prepT plu
     cases pe with
     | plugin r pe => exact ⟨_, _, rfl⟩
     | invariant r => exact ⟨_, _, rfl⟩
+    | notObject r => exact ⟨_, _, rfl⟩
 
-/-- the answers to the queries that pass input processing carry the (expanded, plugin-processed) query they
-answer, provided the single-query function echoes its argument (which `run_single_query` does:
-`create_initial_output` / `package_error` put `request_json` under `request`) -/
-theorem response_carries_request_partial (plugins : List Plugin) (respond : Json → Json)
-    (hr : ∀ q, (respond q).get? "request" = some q) (q : Json) (qs : List Json)
-    (h : prepT plugins q = .ok qs) :
-    answer plugins respond q = qs.map respond ∧
-    ∀ r ∈ answer plugins respond q, ∃ e ∈ qs, r = respond e ∧ r.get? "request" = some e := by
-  simp only [answer, h, List.mem_map, true_and]
-  rintro r ⟨e, he, rfl⟩
-  exact ⟨e, he, rfl, hr e⟩
+/-- grid search, inject (both modes) and the load balancer map an object to an object or to a non-empty array
+of objects -/
+theorem builtin_plugins_keep_objects (p : Plugin) (hp : ∀ t, p ≠ .table t) : ObjOp (processT p) :=
+  processT_objOp p hp
 
-/- Full statement (false of the code): every response to a batch query `q` has a `request` that is `q` or one
-of the queries `q` expands into.  It fails for every non-object query when no plugin rejects it first: -/
+/-- **A query that is not a JSON object is answered with an error response that echoes it**, whatever the
+plugins (fix adb1ee2; it used to be answered with the placeholder request, an array was split into several
+queries when a plugin was configured, and `[]` got no response at all) -/
+theorem non_object_query_echoed (plugins : List Plugin) (respond : Json → Json) (q : Json)
+    (h : q.isObject = false) :
+    prepT plugins q = .error (.obj [("request", q), ("error", .str "UnexpectedQueryStructure")]) ∧
+    answer plugins respond q = [.obj [("request", q), ("error", .str "UnexpectedQueryStructure")]] := by
+  have := prepT_non_object plugins q h
+  exact ⟨this, by simp [answer, this]⟩
 
-/-- **Finding `pipeline/request-not-echoed`**: without input plugins the number `5` (any non-object) is
-answered with `request = {"error":"unable to display query"}` — the query is not echoed -/
-theorem request_not_echoed_counterexample :
-    prepT [] (.num "5" 0) = .error (.obj [("request", noRequest), ("error", .str invariantKind)]) ∧
-    ∀ q : Json, q.isObject = false → q.isArray = false →
-      prepT [] q = .error (.obj [("request", noRequest), ("error", .str invariantKind)]) := by
-  refine ⟨rfl, ?_⟩
-  intro q ho ha
-  cases q <;> simp_all [prepT, GridSearch.applyInputPlugins, GridSearch.applyOps,
-    GridSearch.jsonArrayFlatten, Json.isObject, Json.isArray, errorResponse]
+/-- an object query under object-preserving plugins expands into at least one query, all objects -/
+theorem expansion_nonempty (plugins : List Plugin) (hw : ∀ p ∈ plugins, ObjOp (processT p)) (q : Json)
+    (qs : List Json) (h : prepT plugins q = .ok qs) : qs ≠ [] ∧ qs.all Json.isObject = true := by
+  have ho := prepT_ok_isObject h
+  unfold prepT GridSearch.applyInputPlugins at h
+  simp only [ho, if_true] at h
+  cases ha : GridSearch.applyOps (plugins.map processT) (.arr [q]) with
+  | error e => simp [ha] at h
+  | ok s =>
+    obtain ⟨final, rfl, hall, hne⟩ := applyOps_objects (plugins.map processT)
+      (by intro op hop; obtain ⟨p, hp, rfl⟩ := List.mem_map.mp hop; exact hw p hp)
+      [q] s (by simp [ho]) (by simp) ha
+    simp only [ha, GridSearch.jsonArrayFlatten, hall, if_true, Except.ok.injEq] at h
+    subst h
+    exact ⟨hne, hall⟩
 
-/-- **Finding `pipeline/query-unanswered`**: under any configuration with the grid-search plugin the query
-`[]` passes input processing and expands into *no* query: it gets no response at all -/
-theorem empty_array_query_unanswered_counterexample (respond : Json → Json) :
-    answer [.gridSearch] respond (.arr []) = [] := by
-  rfl
+/-- **Every query is answered**: whatever JSON value is offered as a query, it gets at least one response
+(its expanded queries' responses, or one error response) -/
+theorem every_query_answered (plugins : List Plugin) (hw : ∀ p ∈ plugins, ObjOp (processT p))
+    (respond : Json → Json) (q : Json) : answer plugins respond q ≠ [] := by
+  unfold answer
+  cases h : prepT plugins q with
+  | error e => simp
+  | ok qs => simpa using (expansion_nonempty plugins hw q qs h).1
+
+/-- **What an error response of the input stage carries.**  Either the query is not an object and is echoed
+verbatim, or some plugin `p` failed on a query `x` of the state the plugins before it produced from `q` (`q`
+itself for the first plugin; an expanded / augmented query later) and the request is `x` — or what `p` had
+made of `x` when it failed.  Never the placeholder. -/
+theorem error_echoes_request (plugins : List Plugin) (hw : ∀ p ∈ plugins, ObjOp (processT p))
+    (q e : Json) (h : prepT plugins q = .error e) :
+    (q.isObject = false ∧ e = .obj [("request", q), ("error", .str "UnexpectedQueryStructure")]) ∨
+    (∃ pre p post xs x pe, plugins = pre ++ p :: post ∧
+      GridSearch.applyOps (pre.map processT) (.arr [q]) = .ok (.arr xs) ∧ x ∈ xs ∧
+      processT p x = .error pe ∧
+      e = .obj [("request", pe.left.getD x), ("error", .str pe.kind)]) := by
+  cases ho : q.isObject with
+  | false =>
+    left
+    rw [prepT_non_object plugins q ho] at h
+    exact ⟨rfl, by cases h; rfl⟩
+  | true =>
+    right
+    unfold prepT GridSearch.applyInputPlugins at h
+    simp only [ho, if_true] at h
+    cases ha : GridSearch.applyOps (plugins.map processT) (.arr [q]) with
+    | ok s =>
+      obtain ⟨final, rfl, hall, _⟩ := applyOps_objects (plugins.map processT)
+        (by intro op hop; obtain ⟨p, hp, rfl⟩ := List.mem_map.mp hop; exact hw p hp)
+        [q] s (by simp [ho]) (by simp) ha
+      simp [ha, GridSearch.jsonArrayFlatten, hall] at h
+    | error pe =>
+      simp only [ha, Except.error.injEq] at h
+      obtain ⟨pre', op, post', xs, x, pe', h1, h2, h3, h4, h5⟩ := applyOps_error _ _ pe ha
+      obtain ⟨pre, rest, rfl, hpre, hrest⟩ := List.map_eq_append_iff.mp h1
+      obtain ⟨p, post, rfl, hp, hpost⟩ := List.map_eq_cons_iff.mp hrest
+      subst hpre hp h5
+      exact ⟨pre, p, post, xs, x, pe', rfl, h2, h3, h4, by rw [← h]; rfl⟩
+
+/-- **Each response carries the request it answers**, provided the single-query function echoes its argument
+(which `run_single_query` does: `create_initial_output` / `package_error` put `request_json` under
+`request`): a response is the answer to an expanded query `e` and carries `e`, or it is the error response
+characterised by `error_echoes_request` -/
+theorem response_carries_request (plugins : List Plugin) (respond : Json → Json)
+    (hr : ∀ q, (respond q).get? "request" = some q) (q r : Json)
+    (h : r ∈ answer plugins respond q) :
+    (∃ qs e, prepT plugins q = .ok qs ∧ e ∈ qs ∧ r = respond e ∧ r.get? "request" = some e) ∨
+    (prepT plugins q = .error r ∧ ∃ req kind, r = .obj [("request", req), ("error", .str kind)] ∧
+      r.get? "request" = some req) := by
+  unfold answer at h
+  cases hp : prepT plugins q with
+  | ok qs =>
+    simp only [hp, List.mem_map] at h
+    obtain ⟨e, he, rfl⟩ := h
+    exact Or.inl ⟨qs, e, rfl, he, rfl, hr e⟩
+  | error e =>
+    simp only [hp, List.mem_singleton] at h
+    subst h
+    obtain ⟨req, kind, rfl⟩ := error_response_shape plugins q r hp
+    exact Or.inr ⟨rfl, req, kind, rfl, by simp [Json.get?, Json.lookup]⟩
+
+-- non-vacuity: a number, an array of queries and the empty array are echoed, under any plugins
+example (respond : Json → Json) : answer [.gridSearch] respond (.arr [])
+    = [.obj [("request", .arr []), ("error", .str "UnexpectedQueryStructure")]] :=
+  (non_object_query_echoed _ respond _ rfl).2
 
 /-! ### one response per expanded query -/
 
@@ -255,7 +334,13 @@ plugin applied to every expanded query on its own, a failing one becoming its ow
 theorem answer_is_itemwise_partial (plugins : List Plugin) (respond : Json → Json) (q : Json)
     (qs : List Json) (h : prepT plugins q = .ok qs) :
     answer plugins respond q = itemwiseAnswer plugins respond q := by
-  simp [answer, itemwiseAnswer, h, prepT_ok_itemwise plugins q qs h, List.map_map, Function.comp_def]
+  simp [answer, itemwiseAnswer, h, prepT_ok_isObject h, prepT_ok_itemwise plugins q qs h, List.map_map,
+    Function.comp_def]
+
+/-- … as it does on every query that is not an object -/
+theorem answer_is_itemwise_non_object (plugins : List Plugin) (respond : Json → Json) (q : Json)
+    (h : q.isObject = false) : answer plugins respond q = itemwiseAnswer plugins respond q := by
+  simp [answer, itemwiseAnswer, h, prepT_non_object plugins q h, errorResponse]
 
 /-- `json_array_op` stops at the first failing element: the error response of that element is all that is
 left of the whole array -/
@@ -323,10 +408,12 @@ theorem sibling_responses_lost_counterexample (respond : Json → Json) :
       = [.obj [("request", s1Child1), ("error", .str "InputPluginFailed")]] ∧
     (itemwiseAnswer [.gridSearch, s1Inject] respond s1Query).length = 2 := by
   refine ⟨s1_grid_expands, ⟨_, s1_first_child_fails⟩, ⟨_, s1_second_child_passes⟩, ?_, ?_⟩
-  · simp [answer, prepT, GridSearch.applyInputPlugins, GridSearch.applyOps, GridSearch.jsonArrayOp,
+  · have ho : s1Query.isObject = true := rfl
+    simp [answer, prepT, GridSearch.applyInputPlugins, ho, GridSearch.applyOps, GridSearch.jsonArrayOp,
       GridSearch.mapOp, s1_grid_expands, GridSearch.flattenInPlace, GridSearch.flatten1, Json.isArray,
       s1_first_child_fails, errorResponse]
-  · simp [itemwiseAnswer, itemwise, s1_grid_expands, expand1, s1_first_child_fails,
+  · have ho : s1Query.isObject = true := rfl
+    simp [itemwiseAnswer, ho, itemwise, s1_grid_expands, expand1, s1_first_child_fails,
       s1_second_child_passes]
 
 /-! ## worker threads -/
